@@ -51,6 +51,13 @@ class Results:
         self.notes: list[str] = []
         self.assumptions: list[str] = []
         self.tables: list[str] = []
+        self.unclassified: list[str] = []
+
+    def unclass(self, msg: str) -> None:
+        """A construct the rule cannot classify: not a violation, but never a silent pass (exit 2 unless a
+        violation is reported as well)."""
+        if msg not in self.unclassified:
+            self.unclassified.append(msg)
 
     def rule(self, rid: str, description: str, floor: int = 0) -> RuleStats:
         st = self.rules.get(rid)
@@ -73,6 +80,7 @@ class Results:
                 self.rules[rid] = st
         self.analysed_functions |= other.analysed_functions
         self.notes += other.notes
+        self.unclassified += [u for u in other.unclassified if u not in self.unclassified]
         self.assumptions += [a for a in other.assumptions if a not in self.assumptions]
         self.tables += [t for t in other.tables if t not in self.tables]
 
@@ -181,9 +189,11 @@ def finish(res: Results, tier: str, seed: int, wall_s: float, extra_coverage: di
         "violations": len(violations),
     }
     (EVIDENCE_DIR / f"{prop}.json").write_text(json.dumps(ev, indent=1, default=str))
-    if floor_errors and status == 0:
+    if status == 0 and (floor_errors or res.unclassified):
         for e in floor_errors:
             print(f"ANALYSIS-ERROR property={prop} instance floor not reached: {e}")
+        for e in res.unclassified:
+            print(f"ANALYSIS-ERROR property={prop} unclassifiable construct: {e}")
         return 2
     if status == 0:
         print(f"OK property={prop} tier={tier} rules={len(res.rules)} obligations={discharged}/{obligations} "
